@@ -5,12 +5,12 @@ P("C20",
   design_ref="DESIGN.md §3 C20",
   technique="Coq proof (refinement of the unit-map model to a flat write log, induction over histories) + exact model/impl correspondence by vm_compute",
   level_text="Theorems c20_* prove, for every capacity, every unit size > 0 and every history of reads, writes, checkpoint "
-             "round trips, truncated and re-shaped checkpoint loads (induction over the history, refinement relation Ref): every "
+             "round trips into a fresh storage, saves kept aside and restored later into the current dirty storage (rollback), truncated and re-shaped checkpoint loads (induction over the history, refinement relation Ref): every "
              "result of the model of mem.Storage equals that of a zero-initialised flat array of `capacity` bytes in which an access "
              "with addr+len > capacity (computed without wrap) is an error leaving the state unchanged, and the contents agree at "
              "every address (c20_flat); results do not depend on the unit size (c20_unit_size_irrelevant); rejected accesses return "
              "the same storage (c20_out_of_range_errors); save is independent of map iteration order and load(save) reproduces the "
-             "contents (c20_checkpoint_roundtrip); strict prefixes and foreign shapes are rejected (c20_bad_stream_rejected). "
+             "contents (c20_checkpoint_roundtrip); a stream loaded into ANY storage of the same shape replaces its contents (c20_load_replaces); strict prefixes and foreign shapes are rejected (c20_bad_stream_rejected). "
              "c20_*_old_refuted are regression lemmas for the pre-fix code. The model is compared operation by operation with "
              "mem.Storage on every run; holds_on evaluates the flat array only; c20_model_agreement_implies_property links them.",
   level_note="Trusted: Coq kernel + vm_compute; the Go harness; the hand-written model of storage.go / storage_checkpoint.go "
